@@ -6,7 +6,10 @@ sys.path.insert(0, os.path.join(ROOT, 'tools'))
 import props
 
 TEXT = {
- 'C01': ('generic contract theorems (push_ok + per-combinator RegionOK instances = induction over all compositions, all values, all histories) + correspondence of the executable model with the crate on a 41-entry typed catalogue in two build profiles',
+ 'C06': ('Rocq theorems about the executable word-level model of the Huffman container: optimal code lengths for every count profile; create_from builds correct prefix-free tables for every statistics; encoder, bit iterator and decoder exact at every alignment; RegionOK instance (round trip, append-only, clear, merge, refusal) under the single hypothesis that merged code lengths are at most 57 bits; + correspondence of the model with the crate (bit ranges, decoded symbols, refusals, cost) in two build profiles',
+         'hypothesis mergeable: code lengths <= 57 bits (the u64 encoder register; the crate concedes it); statistics counts < 2^63',
+         'Rocq proof (word-level model, RegionOK instance) + model/impl differential'),
+ 'C01': ('generic contract theorems (push_ok + per-combinator RegionOK instances = induction over all compositions, all values, all histories) + correspondence of the executable model with the crate on a 51-entry typed catalogue in two build profiles; catalogue_full: every catalogue entry (bar D8 and collapse-over-f64) provably meets the contract',
          'theorem over any region meeting RegionOK; D8 composition class excluded (Dense) and reported as known finding; floats under CollapseSequence up to IEEE ==',
          'Rocq contract proof + model/impl differential'),
 }
